@@ -23,7 +23,8 @@
 //!        P<hex id>         place the session's packet counter (hook)
 //!        R<ssid>,<pid>,<tag>,<x>  a well-formed server datagram (payload tag tag, from 10.0.0.<tag>:53) whose client session id is
 //!                          THIS session's id xor <x> (hex): x = 0 is addressed to this session, anything else to another one;
-//!                          an optional fifth field damages it in transit: `t` = last byte lost, `f<n>` = bit n (mod length) flipped.
+//!                          an optional fifth field damages it in transit: `t` = last byte lost, `f<n>` = bit n (mod length) flipped,
+//!                          or states what must happen to it: `=i` it is delivered, `=n` it is dropped (ORACLE-BAD otherwise).
 //!                          When a script has R ops the result has a leading oracle field (ORACLE-OK | ORACLE-BAD ...): a datagram
 //!                          addressed to another client session must not be delivered (2022 kinds).
 //! a trailing `@n` argument of a `dec` case adds the same leading oracle field: the datagram must not be accepted.
@@ -230,6 +231,12 @@ fn run<const N: usize>(kind: CipherKind, is22: bool, f: &[&str]) -> Vec<String> 
                     if is22 && x != 0 && r.starts_with("ITEM") && oracle.is_none() {
                         oracle = Some(format!("ORACLE-BAD delivered a datagram addressed to client session {:x} (own {:x})", own_csid ^ x, own_csid));
                     }
+                    // direct expectation of the script's author (set-based reference, see `WinRef`): `=i` delivered, `=n` dropped
+                    match a.get(4).copied() {
+                        Some("=i") if !r.starts_with("ITEM") && oracle.is_none() => oracle = Some(format!("ORACLE-BAD server session {:x} packet {:x}: expected to be delivered, got {}", ssid, pid, r)),
+                        Some("=n") if r != "NONE" && oracle.is_none() => oracle = Some(format!("ORACLE-BAD server session {:x} packet {:x}: expected to be dropped, got {}", ssid, pid, r)),
+                        _ => {}
+                    }
                     out.push(r);
                 } else if c == "P" {
                     // place the session's packet counter (hook): reaches the end of the 64-bit id space
@@ -371,6 +378,30 @@ pub fn dec_case_m(w: &mut dyn Write, kname: &str, mode: &str, key: &[u8], ikeys:
 }
 fn dec_refuse(w: &mut dyn Write, kname: &str, mode: &str, key: &[u8], ikeys: &str, users: &str, now: i64, dgram: &[u8]) {
     dec_case_m(w, kname, mode, key, ikeys, users, now, dgram, true)
+}
+
+/// Independent reference for the client's replay protection: per server session the SET of accepted packet ids, at most four
+/// sessions kept, the one that appeared first makes room.  An id is accepted iff it is below u64::MAX, not in the set and not more
+/// than 8128 behind the highest id of the set.
+#[derive(Default)]
+pub struct WinRef {
+    sessions: Vec<(u64, Vec<u64>)>,
+}
+impl WinRef {
+    pub fn accept(&mut self, ssid: u64, pid: u64) -> bool {
+        if !self.sessions.iter().any(|(s, _)| *s == ssid) {
+            if self.sessions.len() == 4 {
+                self.sessions.remove(0);
+            }
+            self.sessions.push((ssid, Vec::new()));
+        }
+        let set = &mut self.sessions.iter_mut().find(|(s, _)| *s == ssid).unwrap().1;
+        let ok = pid < u64::MAX && !set.contains(&pid) && set.iter().all(|&j| j <= pid.saturating_add(8128));
+        if ok {
+            set.push(pid);
+        }
+        ok
+    }
 }
 
 pub fn generate(w: &mut dyn Write, seed: u64, thorough: bool) {
@@ -668,6 +699,11 @@ pub fn generate(w: &mut dyn Write, seed: u64, thorough: bool) {
                 if rp == "0" && i >= scripts.len() {
                     continue;
                 }
+                // only the 2022 edition is replay-protected (the constructors never pair a legacy kind with it): a legacy datagram
+                // carries no session id, so the client-session check of a replay-protected codec would drop every one of them
+                if rp == "1" && !is22 {
+                    continue;
+                }
                 let ssid = rng.next();
                 let mut ops: Vec<String> = Vec::new();
                 for (j, &id) in ids.iter().enumerate() {
@@ -698,19 +734,65 @@ pub fn generate(w: &mut dyn Write, seed: u64, thorough: bool) {
                 crate::emit_case(w, &e, exec);
             }
         }
-        // replies of two server sessions interleaved (a restarted server, late packets of the old one): the client session has ONE
-        // window; an id accepted once is not accepted again whichever server session a later datagram names
+        // replies of several server sessions on one client session (a restarted server, an association that expired after 300 s idle,
+        // late packets of the old one): the client keeps ONE WINDOW PER SERVER SESSION, the 4 newest (FIFO by first appearance).
+        // Every R op carries the verdict of an independent set-based reference (`WinRef`): `=i` delivered / `=n` dropped.
         if is22 {
-            for k in 0..(if thorough { 12 } else { 3 }) {
-                let (sa, sb) = (rng.next(), rng.next());
-                let seq: Vec<(u64, u64)> = match k {
-                    0 => vec![(sa, 5), (sb, 1), (sa, 5), (sa, 6), (sb, 1), (sb, 7), (sa, 6)],
-                    1 => vec![(sa, 100), (sa, 101), (sb, 1), (sa, 100), (sb, 2), (sa, 101), (sb, 1)],
-                    _ => (0..14).map(|_| (if rng.below(2) == 0 { sa } else { sb }, 1 + rng.below(6))).collect(),
-                };
-                let ops: Vec<String> = seq.iter().enumerate().map(|(j, &(ss, id))| format!("R{:x},{:x},{:02x},0", ss, id, j as u8)).collect();
+            let emit_seq = |w: &mut dyn Write, seq: &[(u64, u64)], extra: bool| {
+                let mut wr = WinRef::default();
+                let mut ops: Vec<String> = Vec::new();
+                for (j, &(ss, id)) in seq.iter().enumerate() {
+                    ops.push(format!("R{:x},{:x},{:02x},0,{}", ss, id, j as u8, if wr.accept(ss, id) { "=i" } else { "=n" }));
+                    if extra && j == 2 {
+                        ops.push("E4:7f000001:80,aabb".into());
+                        ops.push("D-".into());
+                    }
+                }
                 let a: Vec<String> = vec!["ssudp".into(), "dg".into(), kname.into(), hex(&skey), "-".into(), "1".into(), now.to_string(), ops.join(";")];
                 crate::emit_case(w, &a, exec);
+            };
+            let s: Vec<u64> = (0..8).map(|_| rng.next()).collect();
+            let fixed: Vec<Vec<(u64, u64)>> = vec![
+                // two sessions interleaved, duplicates in each
+                vec![(s[0], 5), (s[1], 1), (s[0], 5), (s[0], 6), (s[1], 1), (s[1], 7), (s[0], 6)],
+                vec![(s[0], 100), (s[0], 101), (s[1], 1), (s[0], 100), (s[1], 2), (s[0], 101), (s[1], 1)],
+                // ids 1..5 of a session, then the server starts a new session and numbers from 1 again; late packets of the old session
+                // after the new one started are judged by the OLD session's window
+                vec![(s[0], 1), (s[0], 2), (s[0], 3), (s[0], 4), (s[0], 5), (s[1], 1), (s[1], 2), (s[0], 5), (s[0], 6), (s[1], 1), (s[0], 3), (s[0], 7), (s[1], 3)],
+                vec![(s[0], 1), (s[0], 2), (s[0], 4), (s[0], 5), (s[1], 1), (s[0], 3), (s[1], 1), (s[0], 3), (s[1], 5), (s[0], 8), (s[1], 4)],
+                // window edges of two sessions, interleaved
+                vec![(s[0], 10000), (s[1], 1), (s[0], 10000 - W), (s[0], 10000 - W - 1), (s[1], W + 2), (s[1], 1), (s[1], 2), (s[0], 9999), (s[1], 3)],
+                // four sessions: all held
+                vec![(s[0], 1), (s[1], 1), (s[2], 1), (s[3], 1), (s[0], 1), (s[1], 1), (s[2], 1), (s[3], 1), (s[0], 2), (s[3], 2)],
+                // five sessions: the fifth displaces the first, whose id is then accepted again (and displaces the second) ...
+                vec![(s[0], 1), (s[1], 1), (s[2], 1), (s[3], 1), (s[0], 1), (s[4], 1), (s[0], 1), (s[1], 1), (s[3], 1), (s[4], 1), (s[2], 1), (s[0], 1)],
+                // six sessions, two ids each, then replays in first-seen order and in reverse
+                vec![(s[0], 1), (s[0], 2), (s[1], 1), (s[1], 2), (s[2], 1), (s[2], 2), (s[3], 1), (s[3], 2), (s[4], 1), (s[4], 2), (s[5], 1), (s[5], 2),
+                     (s[2], 1), (s[3], 2), (s[4], 1), (s[5], 2), (s[0], 1), (s[1], 2), (s[5], 1), (s[4], 2), (s[3], 1), (s[2], 2)],
+                // a session that is seen again while held keeps its place in the queue (first appearance counts, not last use)
+                vec![(s[0], 1), (s[1], 1), (s[2], 1), (s[3], 1), (s[0], 2), (s[0], 3), (s[4], 1), (s[0], 2), (s[1], 1)],
+                // a refused first packet (id u64::MAX) still opens a window and displaces the oldest
+                vec![(s[0], 1), (s[1], 1), (s[2], 1), (s[3], 1), (s[4], u64::MAX), (s[0], 1), (s[4], 1), (s[4], u64::MAX - 1), (s[1], 1)],
+                // server session id 0 and u64::MAX are ids like any other
+                vec![(0, 1), (u64::MAX, 1), (0, 1), (u64::MAX, 1), (0, 2), (1, 1), (2, 1), (3, 1), (0, 1), (u64::MAX, 1)],
+            ];
+            for (k, seq) in fixed.iter().enumerate() {
+                emit_seq(w, seq, k % 2 == 0);
+            }
+            for k in 0..(if thorough { 40 } else { 10 }) {
+                let nsess = 2 + (k % 6) as u64; // 2..=7 server sessions
+                let len = rng.range(14, if thorough { 60 } else { 36 }) as usize;
+                let mut seen: u64 = 1; // sessions appear gradually: a new one with probability 1/4
+                let seq: Vec<(u64, u64)> = (0..len)
+                    .map(|_| {
+                        if seen < nsess && rng.below(4) == 0 {
+                            seen += 1;
+                        }
+                        let which = if rng.below(3) == 0 { seen - 1 } else { rng.below(seen) };
+                        (s[which as usize], 1 + rng.below(6))
+                    })
+                    .collect();
+                emit_seq(w, &seq, k % 3 == 0);
             }
         }
         // the end of the packet id space: the last ids are used once each, then the session refuses to send (no wrap-around to ids already used)
